@@ -135,7 +135,13 @@ Definition judge (c o : sexp) : verdict :=
             | None =>
               match corr with
               | Some m => VCorr m
-              | None => VOk (negb (utree_eqb t g)) tag
+              | None =>
+                (* LAST, when every other clause and the correspondence passed: the path lengths with
+                   every present length read as itself ([len0] reads a negative length as 0); known
+                   finding C06-negative-length-clamped-on-merge *)
+                if (in_dom || in_dom_single) && negb (induced_dists_raw t g kept)
+                then VOracle "a path length between two remaining tips changed (a negative branch length was replaced by 0)"
+                else VOk (negb (utree_eqb t g)) tag
               end
             end
           end
